@@ -198,10 +198,11 @@ Record tstate := mkTS {
   ts_items : list titem;
   ts_used : list Z;     (* requesters of well-formed requests in the current block *)
   ts_bad : list Z;      (* requesters that asked twice in some block *)
-  ts_ok : bool          (* no block with unix time 0 so far *)
+  ts_ok : bool;         (* no block with unix time 0 so far *)
+  ts_ctxs : list Z      (* service contexts named by the oracle requests so far, accepted or not *)
 }.
 
-Definition tinit : tstate := mkTS [] [] [] true.
+Definition tinit : tstate := mkTS [] [] [] true [].
 
 Definition obs_pending (o : obs) (id : rid) : list Z :=
   map (fun e => fst (fst e)) (filter (fun e => eqb (snd (fst e)) id) (o_queue o)).
@@ -216,39 +217,55 @@ Definition view_ok (r0 : request) (d : Z) (ph : phase) (o : obs) : bool :=
      end.
 
 Definition kill (it : titem) : titem := mkT (t_r0 it) (t_d it) (t_ph it) false.
-Definition kill_if (f : titem -> bool) (l : list titem) : list titem :=
-  map (fun it => if f it then kill it else it) l.
 
-(** new tracker state and clause code (0 or 9); [s] = model state before the step, [agree] =
-    model and implementation agree on the outcome, which is not an abort *)
+Definition has_ctx (x : Z) (it : titem) : bool := q_oracle (t_r0 it) && (q_ctx (t_r0 it) =? x).
+
+(** is the request still followed after the step?  The hypotheses of [request_life_cycle] are
+    re-examined: its service context is named by no other oracle request, its requester does
+    not ask twice in a block, no block has time 0 *)
+Definition keep (ts : tstate) (st : step) (it : titem) : bool :=
+  t_live it &&
+  match st with
+  | Req c n orc capok txh svc =>
+      negb (match (if orc then svc else None) with Some x => has_ctx x it | None => false end)
+      && negb (req_ok c capok orc svc && memb c (ts_used ts) && (q_consumer (t_r0 it) =? c))
+  | Begin t _ _ => negb (t =? 0)
+  | Calls _ => true
+  end.
+
+Definition follow (sha : hin -> Z) (s : state) (ts : tstate) (st : step) (it : titem) : titem :=
+  mkT (t_r0 it) (t_d it) (spec_step sha (t_r0 it) (t_d it) s (t_ph it) st) (keep ts st it).
+
+(** the tracker after a step ([s] = model state before it; [accepted]: the request was accepted) *)
+Definition track_next (sha : hin -> Z) (s : state) (ts : tstate) (st : step) (accepted : bool) : tstate :=
+  let items := map (follow sha s ts st) (ts_items ts) in
+  match st with
+  | Req c n orc capok txh svc =>
+      let cx := if orc then svc else None in
+      let seen := match cx with Some x => memb x (ts_ctxs ts) | None => false end in
+      let ctxs := match cx with Some x => x :: ts_ctxs ts | None => ts_ctxs ts end in
+      if req_ok c capok orc svc then
+        let bad := if memb c (ts_used ts) then c :: ts_bad ts else ts_bad ts in
+        let items := if accepted
+                     then items ++ [mkT (new_req s c txh orc svc) (height s + n) Pending
+                                        (ts_ok ts && negb (memb c bad) && negb seen && (0 <=? n))]
+                     else items in
+        mkTS items (c :: ts_used ts) bad (ts_ok ts) ctxs
+      else mkTS items (ts_used ts) (ts_bad ts) (ts_ok ts) ctxs
+  | Begin t _ _ => mkTS items [] (ts_bad ts) (ts_ok ts && negb (t =? 0)) (ts_ctxs ts)
+  | Calls _ => mkTS items (ts_used ts) (ts_bad ts) (ts_ok ts) (ts_ctxs ts)
+  end.
+
+Definition views_code (ts : tstate) (o : obs) : Z :=
+  if forallb (fun it => negb (t_live it) || view_ok (t_r0 it) (t_d it) (t_ph it) o) (ts_items ts) then 0 else 9.
+
+(** new tracker state and clause code (0 or 9); [agree] = model and implementation agree on the
+    outcome, which is not an abort *)
 Definition track_step (sha : hin -> Z) (s : state) (ts : tstate) (st : step) (agree accepted : bool) (o : obs)
   : tstate * Z :=
-  if negb agree then (mkTS (kill_if (fun _ => true) (ts_items ts)) (ts_used ts) (ts_bad ts) false, 0) else
-  let adv := map (fun it => mkT (t_r0 it) (t_d it) (spec_step sha (t_r0 it) (t_d it) s (t_ph it) st) (t_live it))
-                 (ts_items ts) in
-  let ts' :=
-    match st with
-    | Req c n orc capok txh svc =>
-        if req_ok c capok orc svc then
-          let dup := memb c (ts_used ts) in
-          let bad := if dup then c :: ts_bad ts else ts_bad ts in
-          let items := if dup then kill_if (fun it => q_consumer (t_r0 it) =? c) adv else adv in
-          let r0 := new_req s c txh orc svc in
-          let clash := orc && existsb (fun it => q_oracle (t_r0 it) && (q_ctx (t_r0 it) =? q_ctx r0)) items in
-          let items := if clash then kill_if (fun it => q_oracle (t_r0 it) && (q_ctx (t_r0 it) =? q_ctx r0)) items
-                       else items in
-          let items := if accepted
-                       then items ++ [mkT r0 (height s + n) Pending
-                                          (ts_ok ts && negb (memb c bad) && negb clash && (0 <=? n) && (height s + n <? two63))]
-                       else items in
-          mkTS items (c :: ts_used ts) bad (ts_ok ts)
-        else mkTS adv (ts_used ts) (ts_bad ts) (ts_ok ts)
-    | Begin t _ _ =>
-        if t =? 0 then mkTS (kill_if (fun _ => true) adv) [] (ts_bad ts) false
-        else mkTS adv [] (ts_bad ts) (ts_ok ts)
-    | Calls _ => mkTS adv (ts_used ts) (ts_bad ts) (ts_ok ts)
-    end in
-  (ts', if forallb (fun it => negb (t_live it) || view_ok (t_r0 it) (t_d it) (t_ph it) o) (ts_items ts') then 0 else 9).
+  if negb agree
+  then (mkTS (map kill (ts_items ts)) (ts_used ts) (ts_bad ts) false (ts_ctxs ts), 0)
+  else let ts' := track_next sha s ts st accepted in (ts', views_code ts' o).
 
 (** one step of the property check: new bookkeeping, clause code (0 = holds), halted *)
 Definition prop_step (p : pst) (st : step) (o : obs) : pst * Z * bool :=
